@@ -1,5 +1,5 @@
-import Convergen.Model.Builder
-import Convergen.Model.Render
+import Convergen.Props.C04
+import Convergen.Props.BuilderInv
 /-!
 # C06 — explicit notations (:skip, :map, :conv, :literal, $n) are honoured as written
 
@@ -46,14 +46,15 @@ theorem map_second (lhs rhs : Node) (args : List Node) (m : NameMatcher)
   simp [bind, Outcome.bind, hs, hc, hm]
 
 /-- `:map $n` applies when neither a converter nor a plain mapper does; `$1` is the source
-operand, `$2` the first additional argument -/
+operand — also for a member of a nested struct (repaired, DESIGN §5 #30) —, `$2` the first
+additional argument -/
 theorem templated_third (lhs rhs : Node) (args : List Node) (m : NameMatcher)
     (hs : ctx.opts.shouldSkip ctx.eng lhs.matcherExpr = .ok false)
     (hc : ctx.opts.converters.find? (fun c => identMatch c.dst lhs.matcherExpr true) = none)
     (hm : ctx.opts.nameMapper.find? (fun m => identMatch m.dst lhs.matcherExpr true) = none)
     (ht : ctx.opts.templatedNameMapper.find? (fun m => identMatch m.dst lhs.matcherExpr true) = some m) :
     ctx.matchField rec lhs rhs args =
-      ctx.createMapped lhs m.pos (ctx.resolveTemplatedExpr m.src (rhs :: args)) := by
+      ctx.createMapped lhs m.pos (ctx.resolveTemplatedExpr m.src (rhs.rootOf :: args)) := by
   unfold BCtx.matchField
   simp [bind, Outcome.bind, hs, hc, hm, ht]
 
@@ -129,15 +130,122 @@ theorem createMapped_shape (lhs : Node) (pos : String) (n? : Option Node) (s : S
     | error e => simp [hc] at h
     | panic p => simp [hc] at h
 
-/-! ### the full statement of the skip clause and why it is only partly true (finding)
+/-! ## notations beneath a struct member (repair of DESIGN §5 #15)
 
-"never assigned, whatever … enclosing-struct copies would do": the builder consults `:skip`
-only for the fields it visits.  When an enclosing by-value struct is assignable as a whole the
-nested field is never visited. -/
+A struct member is copied as a whole only if no notation names anything beneath it; otherwise the
+builder descends and the nested members go through the precedence chain themselves.  "Beneath" means
+through by-value struct members — the only ones the builder ever descends into. -/
+
+open Convergen.Props.BuilderInv in
+/-- the members beneath `l` reached through by-value struct members only -/
+inductive ReachV : Node → Node → Prop
+  | here {l v} : ctx.env.isStructType (l.exprType ctx.env) = true → v ∈ visited ctx l → ReachV l v
+  | step {l v m} : ctx.env.isStructType (l.exprType ctx.env) = true → v ∈ visited ctx l → ReachV v m → ReachV l m
+
+theorem anyOutcome_false {α : Type} (f : α → Outcome Bool) : ∀ (l : List α), BCtx.anyOutcome f l = .ok false →
+    ∀ x ∈ l, f x = .ok false := by
+  intro l
+  induction l with
+  | nil => intro _ x hx; cases hx
+  | cons a rest ih =>
+    intro h x hx
+    simp only [BCtx.anyOutcome] at h
+    cases hfa : f a with
+    | error e => simp only [hfa] at h; cases h
+    | panic p => simp only [hfa] at h; cases h
+    | ok b =>
+      cases b with
+      | true => simp only [hfa] at h; cases h
+      | false =>
+        simp only [hfa] at h
+        rcases List.mem_cons.mp hx with rfl | hx'
+        · exact hfa
+        · exact ih h x hx'
+
+open Convergen.Props.BuilderInv in
+/-- `addressedBelow` answers "no" only if no member beneath is named by any notation -/
+theorem addressedBelow_false : ∀ (fuel : Nat) (l : Node), ctx.addressedBelow fuel l = .ok false →
+    ∀ m, ReachV ctx l m → ctx.addressed m.matcherExpr = .ok false := by
+  intro fuel
+  induction fuel with
+  | zero => intro l h; simp [BCtx.addressedBelow] at h
+  | succ fuel ih =>
+    intro l h m hr
+    simp only [BCtx.addressedBelow] at h
+    have hstruct : ctx.env.isStructType (l.exprType ctx.env) = true := by cases hr <;> assumption
+    simp only [hstruct, Bool.not_true, Bool.false_eq_true, ↓reduceIte] at h
+    have hall := anyOutcome_false _ _ h
+    have hmember : ∀ v, v ∈ visited ctx l →
+        ctx.addressed v.matcherExpr = .ok false ∧ ctx.addressedBelow fuel v = .ok false := by
+      intro v hv
+      have := hall v (by unfold visited at hv; exact hv)
+      cases ha : ctx.addressed v.matcherExpr with
+      | error e => simp only [ha] at this; cases this
+      | panic p => simp only [ha] at this; cases this
+      | ok b =>
+        cases b with
+        | true => simp only [ha] at this; cases this
+        | false => simp only [ha] at this; exact ⟨rfl, this⟩
+    cases hr with
+    | here _ hv => exact (hmember _ hv).1
+    | step _ hv hr' => exact ih _ (hmember _ hv).2 m hr'
+
+/-- a path no notation names: not skipped, and none of the four explicit lookups finds it -/
+theorem addressed_false (path : String) (h : ctx.addressed path = .ok false) :
+    ctx.opts.shouldSkip ctx.eng path = .ok false ∧
+    ctx.opts.converters.find? (fun c => identMatch c.dst path true) = none ∧
+    ctx.opts.nameMapper.find? (fun m => identMatch m.dst path true) = none ∧
+    ctx.opts.templatedNameMapper.find? (fun m => identMatch m.dst path true) = none ∧
+    ctx.opts.literals.find? (fun l => identMatch l.dst path true) = none := by
+  unfold BCtx.addressed at h
+  cases hs : ctx.opts.shouldSkip ctx.eng path with
+  | error e => simp only [hs] at h; cases h
+  | panic p => simp only [hs] at h; cases h
+  | ok b =>
+    cases b with
+    | true => simp only [hs] at h; cases h
+    | false =>
+      simp only [hs, Outcome.ok.injEq, Bool.or_eq_false_iff, List.any_eq_false] at h
+      obtain ⟨⟨⟨h1, h2⟩, h3⟩, h4⟩ := h
+      refine ⟨rfl, ?_, ?_, ?_, ?_⟩ <;> (rw [List.find?_eq_none]; assumption)
+
+/-- **T6.1 at full depth, for the default matcher.**  When the default matcher assigns a struct
+member as a whole (`dst.In = src.In`), no member beneath it — through by-value struct members, at
+any depth — matches a `:skip` pattern or is named by `:conv`, `:map`, `:map $n` or `:literal`. -/
+theorem whole_copy_only_if_nothing_beneath (lhs cand n : Node) (w w' : List String)
+    (hfrom : C04.FromCand ctx rec lhs cand (.simple lhs (.node n) n.returnsError w'))
+    (hl : ctx.env.isStructType (lhs.exprType ctx.env) = true)
+    (hc : ctx.env.isStructType (cand.exprType ctx.env) = true) :
+    ∀ m, ReachV ctx lhs m → ctx.opts.shouldSkip ctx.eng m.matcherExpr = .ok false ∧
+      ctx.opts.converters.find? (fun c => identMatch c.dst m.matcherExpr true) = none ∧
+      ctx.opts.nameMapper.find? (fun x => identMatch x.dst m.matcherExpr true) = none ∧
+      ctx.opts.templatedNameMapper.find? (fun x => identMatch x.dst m.matcherExpr true) = none ∧
+      ctx.opts.literals.find? (fun x => identMatch x.dst m.matcherExpr true) = none := by
+  intro m hm
+  have hmw : ctx.memberwise lhs cand = .ok false := by
+    cases hfrom with
+    | slice _ _ hsl =>
+      exfalso
+      unfold BCtx.sliceToSlice at hsl
+      simp only at hsl
+      split at hsl
+      · split at hsl <;> cases hsl
+      · split at hsl <;> cases hsl
+    | direct _ hmw => exact hmw
+  unfold BCtx.memberwise at hmw
+  simp only [hl, hc, Bool.and_self, ↓reduceIte] at hmw
+  exact addressed_false ctx _ (addressedBelow_false ctx _ lhs hmw m hm)
+
+/-! ### what remains of the finding
+
+The descent happens in the default matcher.  Two corners stay outside (known_findings, C06):
+a member assigned as a whole by an *explicit* notation on the enclosing member (`:map Src In`,
+`:conv F Src In`, `:literal In …`) ignores notations beneath it, and pointer-typed struct members
+are never descended into. -/
 
 def toyEnv : Env :=
   { tys := #[ { kind := .named, str := "p.In", name := "In", pkgPath := some "p", isStruct := true,
-                fields := [⟨"X", 1⟩] },
+                fields := [⟨"X", 1⟩, ⟨"Y", 1⟩] },
               { kind := .basic, str := "int", name := "int" },
               { kind := .named, str := "p.S", name := "S", pkgPath := some "p", isStruct := true,
                 fields := [⟨"In", 0⟩] } ],
@@ -158,13 +266,23 @@ def bodyText (env : Env) (r : Outcome (List Stmt)) : String :=
   | .error _ => "error"
   | .panic s => "panic: " ++ s
 
-/-- witness: `:skip In.X`, yet `dst.In = src.In` copies `X` (DESIGN §5 #15) -/
-example : bodyText toyEnv (skipInX.structToStruct 3 (.root "dst" 2) (.root "src" 2) []) = "dst.In = src.In\n" := by
+/-- the former witness (DESIGN §5 #15): `:skip In.X` is now honoured, `In` is copied member by member -/
+example : bodyText toyEnv (skipInX.structToStruct 3 (.root "dst" 2) (.root "src" 2) []) =
+    "// skip: dst.In.X\ndst.In.Y = src.In.Y\n" := by
+  decide
+
+/-- without a notation beneath it the member is still copied as a whole -/
+def plain : BCtx := { skipInX with opts := {} }
+example : bodyText toyEnv (plain.structToStruct 3 (.root "dst" 2) (.root "src" 2) []) = "dst.In = src.In\n" := by
   decide
 
 /-- non-vacuity of `skip_wins`: the same pattern on a visited field does skip it -/
 def skipIn : BCtx := { skipInX with opts := { skipFields := [⟨"In", true, true⟩] } }
 example : bodyText toyEnv (skipIn.structToStruct 3 (.root "dst" 2) (.root "src" 2) []) = "// skip: dst.In\n" := by
   decide
+
+/- the remaining corner (`:map In In` together with `:skip In.X` gives `dst.In = src.In`) is shown on the
+   real code by the corpus input corpus/C06/explicit_enclosing.json; `String.splitOn` in `identPaths`
+   does not reduce in the kernel, so it is not stated as a `decide` example here. -/
 
 end Convergen.Props.C06
